@@ -9,6 +9,7 @@ import Bubus.Proofs.MutexThm
 import Bubus.Proofs.HistInv
 import Bubus.Proofs.Fifo
 import Bubus.Proofs.PathInv
+import Bubus.Proofs.NoSkip
 namespace Bubus.Examples
 open Bubus
 
@@ -79,5 +80,17 @@ example : ((run {} timeoutRun).map fun w => ((w.ev 1).results.map (·.status), (
 
 /-- time cannot pass the armed deadline of the running handler (C10): one tick later is rejected -/
 example : ((run {} (timeoutRun.take 19)).bind fun w => step w (.tick 91)).isSome = false := by decide +kernel
+
+/-- non-vacuity of the C01 no-skip theorems: the state just before the inner activation ends (the first 20 labels of
+    `complete`) is reachable, its activation has a non-empty list of selected handlers, and `peEnd` is enabled there -/
+example : ((run {} (complete.take 20)).map fun w =>
+      ((w.act (.inst 0)).map (·.sel), (step w (.peEnd (.inst 0) 0 1)).isSome, (w.ev 1).results.map (·.terminal))) =
+    some (some [1], true, [true]) := by decide
+
+/-- … and mid-way (the history `nested`) the selected handler of the inner activation is neither on the to-do list nor
+    finished: it is the live instance 1 — the middle disjunct of `C01_a_selected_handler_is_never_lost` -/
+example : ((run {} nested).map fun w =>
+      ((w.act (.inst 0)).map fun A => (A.sel, A.todo, A.running), (w.ev 1).results.map (·.terminal))) =
+    some (some ([1], [], [1]), [false]) := by decide
 
 end Bubus.Examples
